@@ -5,7 +5,7 @@
 Require Extraction.
 Require Import ExtrOcamlBasic.
 From Coq Require Import ZArith NArith List QArith Qcanon.
-Require Import Yui.Base.Ring Yui.Base.MatL Yui.Model.HomologyCalc Yui.Model.Snf Yui.Model.Lll.
+Require Import Yui.Base.Ring Yui.Base.MatL Yui.Model.HomologyCalc Yui.Model.HomologyMerge Yui.Model.Snf Yui.Model.Lll.
 
 (* SnfCalc::preprocess for the LLL rings: lll_hnf_in_place(target, [p.is_some(), pinv.is_some()]);
    the fuel (calls of LLLHNFCalc::iterate) is supplied by the driver *)
@@ -31,12 +31,21 @@ Definition hc_homology_at {R} (D : euc_dict R) := homology_at (ed_ring D) (hc_is
 Definition hc_rem {R} (D : euc_dict R) (a b : R) : option R :=
   if ris_zero (ed_ring D) b then None else Some (rrem (ed_euc D) a b).
 
+(* composition of coordinate maps (Model/HomologyMerge.v): the three routes on a complex with coordinate maps *)
+Definition hm_homology_at {R} (D : euc_dict R) := b_homology_at (ed_ring D) (hc_isu D) (snf_of_dict D).
+Definition hm_homology_merge {R} (D : euc_dict R) := b_homology_merge (ed_ring D) (hc_isu D) (snf_of_dict D).
+Definition hm_homology_merge_twice {R} (D : euc_dict R) := b_homology_merge_twice (ed_ring D) (hc_isu D) (snf_of_dict D).
+
 Extraction Language OCaml.
 Extraction "../ocaml/gen/c07_model.ml"
   Z.add N.add Nat.add
   hc_calculate hc_homology hc_homology_at hc_isu hc_rem snf_of_dict
   HomologyCalc.forward_mat HomologyCalc.backward_mat HomologyCalc.forward HomologyCalc.backward
   HomologyCalc.gen HomologyCalc.vectorize HomologyCalc.vectorize_euc HomologyCalc.devectorize
+  hm_homology_at hm_homology_merge hm_homology_merge_twice
+  HomologyCalc.trans_id HomologyCalc.trans_new HomologyCalc.trans_merged HomologyCalc.summand_new
+  HomologyMerge.trans_reduce HomologyMerge.trans_is_id HomologyMerge.summand_merge HomologyMerge.summand_free
+  HomologyMerge.summand_zero HomologyMerge.mk_bcomplex HomologyMerge.b_d_matrix HomologyMerge.b_get
   HomologyCalc.mk_complex HomologyCalc.d_matrix HomologyCalc.dmul HomologyCalc.d_is_zero HomologyCalc.mget
   Snf.Z_dict Snf.Zpre_dict Snf.gauss_dict Snf.eisen_dict Snf.gausspre_dict Snf.eisenpre_dict
   Snf.Q_dict Snf.fp_dict Snf.F2_dict Snf.fp_mk Snf.fp_val
